@@ -183,6 +183,53 @@ func vpTransfer(src *KVStore, ref []vpRef, size uint64) *KVStore {
 	return dst
 }
 
+// vpStep performs one script step of symbolic kind on the store and the reference model and returns
+// the store to continue with (a transfer replaces it by the receiving store).
+func vpStep(s *KVStore, ref []vpRef, nkeys, big int, size uint64, budget int, ops int) *KVStore {
+	op := vpChoose("op", ops)
+	switch op {
+	case 0, 1: // Put / PutRaw
+		k := vpChoose("key", nkeys)
+		vlen := vpPickLen("vlen", big)
+		e := vpMkEntry(k, vlen)
+		var err error
+		if op == 0 {
+			err = s.Put(vpHKey(k), e)
+		} else {
+			err = s.PutRaw(vpHKey(k), e.Encode())
+		}
+		if err == nil {
+			ref[k] = vpRef{present: true, val: vpCopyBytes(e.Value()), ttl: e.TTL(), ts: e.Timestamp()}
+		} else {
+			vpAssert(errors.Is(err, storage.ErrEntryTooLarge), "put-error-kind")
+			vpAssert(uint64(30+vlen) >= size, "put-too-large-only-when-it-does-not-fit")
+		}
+	case 2:
+		k := vpChoose("key", nkeys)
+		err := s.Delete(vpHKey(k))
+		vpAssert(err == nil, "delete-error")
+		ref[k] = vpRef{}
+	case 3:
+		vpCompact(s, budget)
+	case 4:
+		k := vpChoose("key", nkeys)
+		e := entry.New()
+		e.SetTTL(vpI64("ttl"))
+		e.SetTimestamp(vpI64("ts"))
+		err := s.UpdateTTL(vpHKey(k), e)
+		if ref[k].present {
+			vpAssert(err == nil, "updatettl-present")
+			ref[k].ttl = e.TTL()
+			ref[k].ts = e.Timestamp()
+		} else {
+			vpAssert(errors.Is(err, storage.ErrKeyNotFound), "updatettl-absent")
+		}
+	case 5:
+		s = vpTransfer(s, ref, size)
+	}
+	return s
+}
+
 // VerifC11_Map: the store behaves as a map after every step of any script over
 // {Put, PutRaw, Delete, UpdateTTL, Compaction, Transfer} with symbolic table size.
 func VerifC11_Map() {
@@ -194,47 +241,7 @@ func VerifC11_Map() {
 	s := vpMkStore(size)
 	ref := make([]vpRef, nkeys)
 	for i := 0; i < steps; i++ {
-		op := vpChoose("op", 6)
-		switch op {
-		case 0, 1: // Put / PutRaw
-			k := vpChoose("key", nkeys)
-			vlen := vpPickLen("vlen", big)
-			e := vpMkEntry(k, vlen)
-			var err error
-			if op == 0 {
-				err = s.Put(vpHKey(k), e)
-			} else {
-				err = s.PutRaw(vpHKey(k), e.Encode())
-			}
-			if err == nil {
-				ref[k] = vpRef{present: true, val: vpCopyBytes(e.Value()), ttl: e.TTL(), ts: e.Timestamp()}
-			} else {
-				vpAssert(errors.Is(err, storage.ErrEntryTooLarge), "put-error-kind")
-				vpAssert(uint64(30+vlen) >= size, "put-too-large-only-when-it-does-not-fit")
-			}
-		case 2:
-			k := vpChoose("key", nkeys)
-			err := s.Delete(vpHKey(k))
-			vpAssert(err == nil, "delete-error")
-			ref[k] = vpRef{}
-		case 3:
-			k := vpChoose("key", nkeys)
-			e := entry.New()
-			e.SetTTL(vpI64("ttl"))
-			e.SetTimestamp(vpI64("ts"))
-			err := s.UpdateTTL(vpHKey(k), e)
-			if ref[k].present {
-				vpAssert(err == nil, "updatettl-present")
-				ref[k].ttl = e.TTL()
-				ref[k].ts = e.Timestamp()
-			} else {
-				vpAssert(errors.Is(err, storage.ErrKeyNotFound), "updatettl-absent")
-			}
-		case 4:
-			vpCompact(s, 2*steps+4)
-		case 5:
-			s = vpTransfer(s, ref, size)
-		}
+		s = vpStep(s, ref, nkeys, big, size, 2*steps+4, 6)
 		vpCheckStore(s, ref)
 	}
 	vpReach("end")
